@@ -18,6 +18,14 @@ fn s(b: &[u8]) -> String { String::from_utf8_lossy(b).into_owned() }
 fn cookie(rng: &mut Rng) -> Vec<u8> { let n = *rng.pick(&[0usize, 1, 2, 8, 16, 127, 128, 300]); let k = if rng.chance(1, 40) { 70000 } else { n }; rng.bytes(k) }
 fn ustr(rng: &mut Rng) -> Vec<u8> { let n = rng.below(12) as usize; (0..n).map(|_| b"abcxyz=,:0123456789 "[rng.below(20) as usize]).collect() }
 
+/// C08 through the two control constructors that compile a filter string: well-formed filters, and the malformed ones of F47
+pub fn gen_ctlfilter(rng: &mut Rng, n: usize, out: &mut Vec<String>) {
+    let filters: &[&[u8]] = &[b"(cn=a)", b"(&(objectClass=person)(!(sn=x*)))", b"uid=j", b"(cn:dn:2.5.13.5:=x)", b"(cn:DN:=x)", b"(|)", b"(a>=1)", b"(a=\\2a)"];
+    let mvs: &[&[u8]] = &[b"((cn=a))", b"((cn=a*)(o=b))", b"((mail=*@example.com)(sn>=x)(c:2.5.13.2:=US))"];
+    for i in 0..n { if i % 2 == 0 { out.push(format!("ctl assertion/{}", hex(*rng.pick(filters)))) } else { out.push(format!("ctl matched/{}", hex(*rng.pick(mvs)))) } }
+    for w in ["ctl assertion/28636e3d61", "ctl assertion/28636e3d615c7a7a29", "ctl assertion/28613d2a2a29", "ctl matched/2828636e3d6129"] { out.push(w.into()); }
+}
+
 pub fn gen(rng: &mut Rng, n: usize, out: &mut Vec<String>) {
     let attrs = |rng: &mut Rng| -> Vec<Vec<u8>> { (0..rng.below(4)).map(|_| rng.pick(&[&b"cn"[..], b"sn", b"*", b"+", b"entryUUID", b"2.5.4.3"]).to_vec()).collect() };
     let filters: &[&[u8]] = &[b"(cn=a)", b"(&(objectClass=person)(!(sn=x*)))", b"uid=j", b"(cn:dn:2.5.13.5:=x)", b"(|)", b"(a>=1)"];
@@ -53,7 +61,7 @@ pub fn gen(rng: &mut Rng, n: usize, out: &mut Vec<String>) {
         }
     }
     // malformed response values: outside C19's domain, agreement only
-    for w in ["cresp paged 3000", "cresp paged 0400", "cresp syncstate 30030a0109", "cresp passmod 3000", "cresp passmod-raw 3000", "cresp passmod-raw 30038001ff", "cresp passmod-raw 30058003733363", "cresp starttxn-raw 0000018ffffe8001", "cresp starttxn-raw 74786e31", "cresp starttxn-raw ff", "cresp syncdone 30020500", "cresp whoami ff"] { out.push(w.into()); }
+    for w in ["cresp paged 3000", "cresp paged 0400", "cresp syncstate 30030a0109", "ctl assertion/28636e3d61", "ctl assertion/28636e3d615c7a7a29", "ctl matched/2828636e3d6129", "cresp passmod 3000", "cresp passmod-raw 3000", "cresp passmod-raw 30038001ff", "cresp passmod-raw 30058003733363", "cresp starttxn-raw 0000018ffffe8001", "cresp starttxn-raw 74786e31", "cresp starttxn-raw ff", "cresp syncdone 30020500", "cresp whoami ff"] { out.push(w.into()); }
 }
 
 fn show_raw(r: &RawControl) -> String { format!("{}/{}/{}", hex(r.ctype.as_bytes()), if r.crit { 1 } else { 0 }, opt_hex(&r.val)) }
@@ -62,9 +70,11 @@ fn expect(oid: &str, crit: bool, val: Option<Vec<u8>>) -> String { format!("{}/{
 
 pub fn run(lane: &str, args: &[&str]) -> (String, Option<String>) {
     let a0 = args[0].to_string(); let args: Vec<String> = args.iter().map(|x| x.to_string()).collect();
-    let lane = lane.to_string(); let _ = a0;
+    let lane = lane.to_string();
     let r = std::panic::catch_unwind(move || run_inner(&lane, &args));
-    match r { Ok(x) => x, Err(_) => ("panic".into(), None) }
+    match r { Ok(x) => x, Err(_) => ("panic".into(),
+        // C08: a malformed filter string is "rejected with an error, never a panic" - through these two constructors it is a panic (known finding F47)
+        if a0.starts_with("assertion/") || a0.starts_with("matched/") { Some(format!("[only:C08] F47-ctl-filter-panic: {}::new panics on the filter string {}", if a0.starts_with("a") { "Assertion" } else { "MatchedValues" }, a0.split('/').nth(1).unwrap_or(""))) } else { None }) }
 }
 fn run_inner(lane: &str, args: &[String]) -> (String, Option<String>) {
     if lane == "cresp" { return cresp(&args[0], &args[1]); }
